@@ -49,7 +49,11 @@ def isFetch (id : Nat) : Bool := [28, 29, 38, 58].contains id
 
 def handle (inp out : String) : String :=
   match words inp with
-  | "a" :: pol :: sigHex :: up :: ext :: ver :: keyHex :: replyW :: pfW :: _bar :: good :: win :: sigok :: rest =>
+  | "a" :: pol :: sigHex :: up :: ext :: ver :: keyHex :: replyW :: pfW0 :: _bar :: good :: win :: sigok :: rest =>
+    -- a file the context fetches and PKI-verifies itself: there when trusted, a failed fetch otherwise
+    let pfW := if pfW0.startsWith "ctx:" then (match pfW0.splitOn ":" with
+      | [_, _, _, _, t, hexs] => if t == "t1" then hexs else "-"
+      | _ => "-") else pfW0
     let label := rest.headD "-"
     let v := (words out).headD "?"
     -- the property on the implementation's output
